@@ -141,8 +141,15 @@ pub fn run(ctx: &Ctx, cfg: &DiffCfg<'_>, patterns: &[Node], texts: &[String]) ->
                     v.note = "lock-step shadow of the backtracking state".into();
                     acc.violate(v);
                 }
+                // the leaked entry of finding FJ comes from a conditional; the same signature on a
+                // pattern without one is a pairing fault of its own (C20)
+                if h.aux_mismatch > 0 && !p.has_cond() {
+                    let mut v = Violation::new(cfg.prop, "aux-pairing(C20)", &s, t, from, "captures_from_pos", "every EndAtomic pops the entry pushed by its own BeginAtomic".into(), format!("{} EndAtomic instruction(s) consumed an entry pushed by another BeginAtomic", h.aux_mismatch));
+                    v.note = "hook H3: auxiliary-stack pairing".into();
+                    acc.violate(v);
+                }
                 let attributed = |acc: &mut Acc, what: &str| -> bool {
-                    if (h.aux_mismatch > 0 || fj_static) && fj_listed {
+                    if ((h.aux_mismatch > 0 && p.has_cond()) || fj_static) && fj_listed {
                         acc.known_hit("FJ", || format!("{} on {:?}@{}: {}", s, t, from, what));
                         return true;
                     }
